@@ -13,6 +13,7 @@ import (
 type CaseSpec struct {
 	Pkg     string `json:"pkg"`
 	Harness string `json:"harness"`
+	Name    string `json:"name,omitempty"` // optional leading string parameter (table entry)
 	Params  []int  `json:"params"`
 	FP      bool   `json:"fp,omitempty"`
 	Cert    bool   `json:"cert,omitempty"`     // issue the partial-order certificate
@@ -27,6 +28,9 @@ func (c CaseSpec) ID() string {
 	var ps []string
 	for _, p := range c.Params {
 		ps = append(ps, fmt.Sprint(p))
+	}
+	if c.Name != "" {
+		ps = append([]string{c.Name}, ps...)
 	}
 	s := c.Harness + "(" + strings.Join(ps, ",") + ")"
 	if c.Tag != "" {
@@ -87,7 +91,11 @@ func RunCase(p *Program, sol *Solver, spec CaseSpec) *CaseResult {
 		res.Incomplete = "harness not found: " + spec.Pkg + "." + spec.Harness
 		return res
 	}
-	if len(entry.Params) != len(spec.Params) {
+	nName := 0
+	if spec.Name != "" {
+		nName = 1
+	}
+	if len(entry.Params) != len(spec.Params)+nName {
 		res.Incomplete = fmt.Sprintf("harness %s takes %d parameters, %d given", spec.Harness, len(entry.Params), len(spec.Params))
 		return res
 	}
@@ -116,9 +124,12 @@ func RunCase(p *Program, sol *Solver, spec CaseSpec) *CaseResult {
 		if spec.MaxSteps > 0 {
 			ex.MaxSteps = spec.MaxSteps
 		}
-		params := make([]Value, len(spec.Params))
-		for i, v := range spec.Params {
-			params[i] = mkInt(int64(v), 64, false)
+		var params []Value
+		if spec.Name != "" {
+			params = append(params, Str{C: spec.Name})
+		}
+		for _, v := range spec.Params {
+			params = append(params, mkInt(int64(v), 64, false))
 		}
 		out := ex.Run(entry, params)
 		res.Paths++
@@ -172,7 +183,11 @@ func RunCase(p *Program, sol *Solver, spec CaseSpec) *CaseResult {
 				key := a.Label + "|" + a.Known
 				if !seenViol[key] {
 					seenViol[key] = true
-					res.Violations = append(res.Violations, Violation{Case: spec, Kind: "assert", Label: a.Label, Model: a.Model, Known: a.Known, Trace: ex.decisions})
+					kind := "assert"
+					if a.Kind != "" {
+						kind = a.Kind
+					}
+					res.Violations = append(res.Violations, Violation{Case: spec, Kind: kind, Label: a.Label, Model: a.Model, Known: a.Known, Trace: ex.decisions})
 				}
 			}
 		}
@@ -227,6 +242,17 @@ func RunCase(p *Program, sol *Solver, spec CaseSpec) *CaseResult {
 			}
 		}
 	}
+	// a satisfiability obligation is met if it is satisfiable on some path
+	var kept []Violation
+	for _, v := range res.Violations {
+		if v.Kind == "never" {
+			if a := res.Asserts[v.Label]; a != nil && a.Holds+a.Trivial > 0 {
+				continue
+			}
+		}
+		kept = append(kept, v)
+	}
+	res.Violations = kept
 	res.CertNotes = uniq(res.CertNotes)
 	res.Stats = sol.Stats
 	res.Stats.BySolver = map[string]int{}
